@@ -35,6 +35,13 @@ def showObs (s : State) : Obs → List String
   | .finish c o => [s!"fin.c{c}.{clsOf o (s.callers c).tok.payload.bytes}"]
   | _ => []
 
+/-- the model does not distinguish the two texts of an ended context (`context canceled` / `context deadline exceeded`) -/
+def normTok (t : String) : String :=
+  let cut (n : Nat) : String := String.ofList (t.toList.take (t.length - n))
+  if t.endsWith ".ctxdl" then cut 2
+  else if t.endsWith ".fe-deadline" then cut 8 ++ "cancel"
+  else t
+
 def actsFor (s : State) (st : Step) : List Act :=
   match st.kind with
   | "rot" => [.rotate st.keys]
@@ -46,6 +53,7 @@ def actsFor (s : State) (st : Step) : List Act :=
      | .atSelect _ _ => [.wake st.id false, .wake st.id true]
      | _ => [])
   | "cancel" => [.cancel st.id]
+  | "expire" => [.expire st.id]
   | "resp" => [.respond st.id st.ans]
   | "upd" => [.upd st.id]
   | _ => []
@@ -59,7 +67,7 @@ def replay (cfg : JwksSet) : State → Nat → List Step → Except String State
       match exec GenJwks.facts GenJwks.logic cfg s a with
       | some (s', obs) => some (s', obs.flatMap (showObs s'))
       | none => none
-    match cands.find? (fun c => c.2 == st.obs) with
+    match cands.find? (fun c => c.2 == st.obs.map normTok) with
     | some (s', _) => replay cfg s' (i + 1) rest
     | none =>
       let want := match cands with
